@@ -257,6 +257,43 @@ def h_recv_headers_id():
     return h
 
 
+def h_recv_headers_id_client():
+    """client receives HEADERS on a stream id it does not track: never legal as an opening
+    frame (only PUSH_PROMISE opens peer streams), and classified by how that id was closed -
+    stream error if it was reset, STREAM_CLOSED if it ended, PROTOCOL_ERROR if it was never
+    used (incl. the id EQUAL to the highest promised one)"""
+    def h():
+        with h2h.native():
+            c, s = _server_with_parent()
+            s.send_headers(1, h2h.RESP)
+            wire = s.data_to_send()
+        Hin = _sym_parity('highest_in', 0, 4)
+        Hout = _sym_parity('highest_out', 1, 5)
+        _set_marks(c, Hout, Hin)
+        sid = sym_int('sid', 1, INT31, default=4)
+        cb = _install_closed(c, sid, others=(Hin, Hout))
+        symmap.linear_streams(c)
+        assume_z(s_not(s_eq(sid, 1)))        # stream 1 is the live parent
+        f = hf.HeadersFrame(sid)
+        f.flags.add('END_HEADERS')
+        with h2h.native():
+            f.data = models.parse_frames(wire)[0].data
+        odd = s_eq(sid - 2 * (sid // 2), 1)
+        too_low = s_ite(odd, s_le(sid, Hout), s_le(sid, Hin))
+        out = models.Out(c)
+        try:
+            evs = h2h.deliver(c, [f])
+        except h2.exceptions.ProtocolError as e:
+            _error_class(c, out, [], e, cb, too_low, 'client-headers', sid)
+            return
+        if out.nbytes():
+            _error_class(c, out, evs, None, cb, too_low, 'client-headers', sid)
+            return
+        note('accepted')
+        check(False, 'client-accepts-headers-on-untracked-stream', (sid, Hin, Hout))
+    return h
+
+
 def h_recv_push_id():
     """client receives PUSH_PROMISE(promised id) on its open stream 1"""
     def h():
@@ -384,6 +421,8 @@ def shards(tier, seed):
     out.append(Shard('push_stream_id/server', h_push_id(), expect=['pushed', 'refused']))
     out.append(Shard('recv_headers_id/server', h_recv_headers_id(), budget=90,
                      expect=['opened', 'stream-error', 'stream-closed', 'protocol-error']))
+    out.append(Shard('recv_headers_id/client', h_recv_headers_id_client(), budget=90,
+                     expect=['stream-error', 'stream-closed', 'protocol-error']))
     out.append(Shard('recv_push_promise_refused/client', h_recv_push_refused(), budget=90,
                      expect=['refused', 'fresh']))
     out.append(Shard('recv_push_promise_id/client', h_recv_push_id(), budget=90,
